@@ -402,6 +402,9 @@ func init() {
 		}
 		c, ok := s.Concrete()
 		if !ok {
+			if s.Abs == nil {
+				return declined{} // symbolic bytes: the real strings.Fields runs
+			}
 			m.unsupported("strings.Fields of a symbolic string")
 		}
 		fs := strings.Fields(c)
@@ -461,6 +464,9 @@ func init() {
 		}
 		c, ok := s.Concrete()
 		if !ok {
+			if s.Abs == nil {
+				return declined{} // symbolic bytes: the real strings.TrimSpace runs
+			}
 			m.unsupported("strings.TrimSpace of a symbolic string")
 		}
 		return StrVal{S: strings.TrimSpace(c)}
